@@ -37,7 +37,7 @@ RULE = ("root datasets of 5..40 events (three dyadic scalar columns with "
         "level at arbitrary moments (lazy caches); families: random chains, "
         "35% sliding-window scenarios, 15% siblings (two branches below 0..2 "
         "shared levels, modelled by sib_run), 8% polygon filters and 'limit "
-        "events' on any level (oracle only), 10% `ext` (oracle only): root "
+        "events' on any level (oracle only), 5% `ext` (oracle only): root "
         "configuration changes with emodulus as computed feature, "
         "reset_filter() on a level, deleted ranges, a lone min key (the "
         "refresh raises until repaired), non-scalar temporary features on "
@@ -69,6 +69,12 @@ TRUSTED_BASE = [
     "manual exclusions are judged by composing them); siblings: modelled "
     "as two chains sharing their ancestors (sib_step applies the chain "
     "operation to one of them)",
+    "the model pins which features Filter.update reads during a refresh "
+    "(reads_box, remove-invalid: they decide which ChildScalar arrays are "
+    "cached); a Filter.update that reads more or less would be reported by "
+    "the correspondence through stray reads made after "
+    "set_temporary_feature on the root without a refresh, although both "
+    "values are legitimate for a chain that is not refreshed (accepted)",
     "model of the root dataset: a plain Filter has no _root_ids / "
     "_parent_hash; the model gives them the values of an all-selected child "
     "(never read by the modelled code paths)",
@@ -150,9 +156,9 @@ def gen_case(rng, thorough=False, hazard=None):
             return gen_sib(rng, thorough)
         if r < 0.58:
             return gen_poly(rng, thorough)
-        if r < 0.68:
+        if r < 0.63:
             return gen_ext(rng, thorough)
-        if r < 0.76:
+        if r < 0.69:
             # the root is an .rtdc file (modelled like the dict root)
             case = gen_scenario(rng, thorough)
             return dict(case, h5=True, extra=1)
@@ -407,6 +413,7 @@ def gen_ext(rng, thorough=False):
     depth = sum(1 for o in case["ops"] if o[0] == 6)
     ops = []
     first = True
+    nconf = 0
     for o in case["ops"]:
         ops.append(o)
         if o[0] != 3 or o[1] != 0:
@@ -418,7 +425,9 @@ def gen_ext(rng, thorough=False):
             ops.append([3, 0, 0, 0, 0])
         r = rng.random()
         lvl = rng.randint(0, depth)
-        if r < 0.25:
+        if r < 0.25 and nconf < 3:
+            # (every change costs an interpolation of the emodulus LUT)
+            nconf += 1
             ops.append([3, 3, rng.randint(0, 30), 0, 0])
             if rng.random() < 0.5:
                 ops.append([3, 0, 0, 0, 0])
